@@ -4,6 +4,7 @@ package main
 
 import (
 	"fmt"
+	"os"
 	"go/types"
 	"sort"
 	"strings"
@@ -169,6 +170,9 @@ func (st *State) heapGet(key, sort string) string {
 	if t, ok := st.heap[key]; ok {
 		return t
 	}
+	if os.Getenv("TVDBG") != "" {
+		fmt.Fprintln(os.Stderr, "heapGet-miss", key)
+	}
 	ep := st.epoch
 	if strings.HasPrefix(key, "L|") || strings.HasPrefix(key, "R|") {
 		ep = 0 // lock hold counts survive calls (callees are balanced: their own lock-balance obligation / assumption for callbacks)
@@ -189,6 +193,9 @@ func (st *State) heapGet(key, sort string) string {
 }
 
 func (st *State) heapSet(key, sort, term string) {
+	if os.Getenv("TVDBG") != "" {
+		fmt.Fprintln(os.Stderr, "heapSet", key)
+	}
 	st.heap[key] = term
 }
 
